@@ -34,3 +34,11 @@ VARIANTS += [
     V("twin-grid-merge-1e-4", BS, SNAP, "                if ts[-1] - next_t < 1e-4 * step_size:\n", expect="silent"),
     V("twin-grid-merge-rearranged", BS, SNAP, "                if next_t + 1e-3 * step_size > ts[-1]:\n", expect="silent"),
 ]
+
+VARIANTS += [
+    # round-6 seed: times floored to the tolerance grid instead of rounded to the nearest grid point
+    V("quantiser-floors", "torchsde/_brownian/brownian_interval.py", "            self._round = lambda x: round(x, ndigits)",
+      "            self._round = lambda x: math.floor(x * 10 ** ndigits) / 10 ** ndigits", rule="R15.9"),
+    V("twin-quantiser-named-function", "torchsde/_brownian/brownian_interval.py", "            self._round = lambda x: round(x, ndigits)",
+      "            def _to_grid(x):\n                return round(x, ndigits)\n            self._round = _to_grid", expect="silent"),
+]
